@@ -198,8 +198,13 @@ def build_module(rng, tok: Tok, gated: set, common_only: bool, n_elems: int, nam
     mod_model.summary = tok.line(rng, "m")
     mod_model.body = [tok.line(rng, "n")]
 
+    extra_strings = [tok.line(rng, "z"), tok.line(rng, "z")]
+
     def render(style: str) -> str:
         out = [pydoc(mod_model.render("plaintext" if True else style), ""), "\n"]
+        # further bare string statements at module level (a documented constant, a block used as comment): they are no
+        # module docstring and belong to no element of the stubs
+        out.append(f'DEFAULT_{tag.upper()} = 4\n"""{extra_strings[0]}"""\n\n')
         for kind, name, m, ex in elems:
             if kind == "func":
                 out.append(f"def {name}({', '.join(p + ': int' for p in ex['params'])}) -> int:\n{pydoc(m.render(style), '    ')}    return 1\n\n\n")
@@ -215,6 +220,12 @@ def build_module(rng, tok: Tok, gated: set, common_only: bool, n_elems: int, nam
                     out.append("    pass\n")
                 out.append("\n\n")
         return "".join(out)
+
+    trailer = f'\n"""\n{extra_strings[1]}\n"""\n'
+    _render_inner = render
+
+    def render(style: str) -> str:  # noqa: F811 - the trailing block comes after every declaration
+        return _render_inner(style) + trailer
 
     for kind, name, m, ex in elems:
         if kind == "func":
